@@ -34,6 +34,8 @@ def handleLine (line : String) : String :=
       | "block" => handleBlock args
       | "revisit" => handleRevisit args
       | "xpolb" => handleXpolBuild args
+      | "unmpair" => "impl-only" -- one Unmarshaler, two records: no state between calls in the model by construction
+      | "xpolf" => "impl-only"   -- transient reader faults: judged on the implementation alone
       | "writer" => handleWriter args
       | "namegen" => handleNamegen args
       | "cuts" => handleCuts args
